@@ -160,7 +160,8 @@ class C01(Check):
             p2 = margin + r.rand(3, nd) * box
             allp = np.vstack([p1, p2])
             d = np.sqrt(((allp[:, None] - allp[None]) ** 2).sum(-1)) + np.eye(7) * 9
-            if d.min() > apart:
+            need = np.minimum(1.5, 0.65 * box)  # each group spans enough for the crop-to-landmarks family
+            if d.min() > apart and np.all(p1.max(0) - p1.min(0) >= need) and np.all(p2.max(0) - p2.min(0) >= need):
                 break
         else:
             from mc.core import HarnessError
@@ -239,6 +240,9 @@ class C01(Check):
         for t in ("translation", "similarity", "affine", "tps", "pwa"):
             out.append(("warp_to_mask", t, 1))
         out.append(("warp_to_mask", "pwa", 0))
+        # the same warp object used before with another target, then re-targeted (anything memoised on the transform
+        # - its inverse, its containment cache - must follow the new target)
+        out += [("warp_to_shape", "tps-reused", 1), ("warp_to_mask", "tps-reused", 1), ("warp_to_mask", "pwa-reused", 1)]
         return out
 
     def _letters_3d(self, st, reduced):
@@ -261,10 +265,10 @@ class C01(Check):
             return bool(np.all(np.ceil(np.minimum(op[2], S)) - np.floor(np.maximum(op[1], 0)) >= 2))
         if op[0] == "warp_window":
             return bool(np.all(S >= 6))
-        if op[0] == "warp_to_mask" and op[1] == "pwa":
+        if op[0] == "warp_to_mask" and op[1] in ("pwa", "pwa-reused"):
             # every landmark must lie inside the piecewise-affine target domain (inner quadrilateral of the image)
             lms = np.vstack([img.landmarks[g].points for g in img.landmarks])
-            return bool(np.all(lms > 1.0) and np.all(lms < S - 2.5))
+            return bool(np.all(lms > 0.9) and np.all(lms < S - 1.9) and np.all(lms.max(axis=0) - lms.min(axis=0) > 1.0))
         if op[0] in ("crop_to_landmarks", "crop_to_pointcloud", "crop_to_landmarks_proportion", "crop_to_pointcloud_proportion"):
             p = img.landmarks[op[1]].points
             return bool(np.all(p.max(axis=0) - p.min(axis=0) >= 1.0) and np.all(p.min(axis=0) >= 0) and np.all(p.max(axis=0) <= S - 1))
@@ -318,6 +322,25 @@ class C01(Check):
         from menpo.shape import PointCloud, TriMesh
 
         nd = img.n_dims
+        if name.endswith("-reused"):
+            from menpo.shape import PointCloud as _PC
+
+            t, dom = self._warp_letter(img, name[: -len("-reused")], tpl_shape)
+            final = t.target.points.copy()
+            r = rs(self.seed, "c01reuse", name)
+            # first life of the object: another target, used for a complete warp (landmarks included)
+            t.set_target(_PC(final + 0.3 * (r.rand(*final.shape) - 0.5)) if dom is None else type(t.target)(final + 0.15 * (r.rand(*final.shape) - 0.5), t.target.trilist))
+            tm = BooleanImage(np.ones(tpl_shape, dtype=bool))
+            try:
+                if dom is None:
+                    img.warp_to_shape(tpl_shape, t, warp_landmarks=True)
+                else:
+                    img.warp_to_mask(tm, t, warp_landmarks=True)
+            except Exception as e:  # the first life is only there to warm the object up
+                self.note("reuse:first-warp-raised-%s" % type(e).__name__)
+            t.set_target(_PC(final) if dom is None else type(t.target)(final, t.target.trilist))
+            self.note("reuse:%s" % name)
+            return t, dom
         if name in ("translation", "similarity", "affine"):
             return self._affine_letter(name, nd, img.shape, tpl_shape), None
         # control points in the source image = all landmark points + the 4 corners of an inner box
@@ -333,7 +356,13 @@ class C01(Check):
         r = rs(self.seed, "c01pwa")
         T = np.array(tpl_shape, dtype=float)
         tpl_pts = np.array([[0, 0], [0, T[1] - 1], [T[0] - 1, T[1] - 1], [T[0] - 1, 0], [np.floor(T[0] / 2), np.floor(T[1] / 2)]])
-        src_pts = np.array([[0.4, 0.6], [0.7, S[1] - 1.5], [S[0] - 1.4, S[1] - 1.3], [S[0] - 1.6, 0.5], [S[0] / 2 - 0.3, S[1] / 2 + 0.4]]) + 0.2 * (r.rand(5, 2) - 0.5)
+        # target quadrilateral = bounding box of all landmarks widened by 0.7 px (kept inside the image), so that every
+        # landmark lies inside the piecewise-affine target domain whatever the payload
+        lo = np.maximum(lms.min(axis=0) - 0.7, 0.05)
+        hi = np.minimum(lms.max(axis=0) + 0.7, S - 1.05)
+        mid = (lo + hi) / 2
+        src_pts = np.array([[lo[0], lo[1]], [lo[0] + 0.2, hi[1]], [hi[0], hi[1] - 0.1], [hi[0] - 0.15, lo[1] + 0.1], [mid[0] - 0.3, mid[1] + 0.4]]) + 0.1 * (r.rand(5, 2) - 0.5)
+        src_pts = np.clip(src_pts, 0.0, S - 1.0)
         tl = np.array([[0, 1, 4], [1, 2, 4], [2, 3, 4], [3, 0, 4]])
         pwa = mt.PiecewiseAffine(TriMesh(tpl_pts, tl), TriMesh(src_pts, tl))
         return pwa, "domain"
@@ -686,7 +715,7 @@ class C01(Check):
 
     # ------------------------------------------------------------------ reporting
     def vacuity(self, notes, stats):
-        need = ["pixels-compared", "outside-pixels-compared", "outside-mask-compared", "mask-compared", "landmarks-compared", "samples-compared", "pyramid:levels", "gaussian_pyramid:levels", "warp_to_mask:BooleanImage", "warp_to_shape:MaskedImage", "rotate:BooleanImage", "crop_to_true_mask:MaskedImage", "rescale:Image"]
+        need = ["pixels-compared", "outside-pixels-compared", "outside-mask-compared", "mask-compared", "landmarks-compared", "samples-compared", "pyramid:levels", "gaussian_pyramid:levels", "warp_to_mask:BooleanImage", "warp_to_shape:MaskedImage", "rotate:BooleanImage", "crop_to_true_mask:MaskedImage", "rescale:Image", "reuse:tps-reused", "reuse:pwa-reused"]
         return ["outcome %s never produced" % n for n in need if not notes.get(n)]
 
     def rule(self):
